@@ -65,7 +65,7 @@ def run(ck):
                 o2 = dict(op)
                 o2["null_" + key] = True
                 invalid.append({"id": jid, "tree": tree, "api": "c", "op": o2, "snap": "all", "meta": {"cls": "NULL " + key}})
-    for fd in (-1, INT_MIN):
+    for fd in (-1, -100, INT_MIN):
         jid += 1
         invalid.append({"id": jid, "tree": tree, "api": "c", "op": {"k": "reopen", "path": H("f"), "flags": 0, "fd_raw": fd}, "meta": {"cls": "negative fd"}})
     # (the last three: a valid constant in the low 32 bits, something else above -- a 64-bit argument read as 32 bits would accept them)
